@@ -46,18 +46,24 @@ RULE = (
     "Event/Thread operation of the recording and the writer thread, with a virtual clock. After stop()+close() the "
     "files of each data set are read back in subdivision order (raw: frame parser; json: Message.from_json per "
     "line; quicklogger: QLReader.load) and compared with the selected messages handed over while recording and not "
-    "paused, per recording. Additionally every schedule of small histories is enumerated depth-first (quick: 9 fixed "
-    "histories plus 32 Hypothesis-drawn histories with two flush deadlines, <=600 schedules each; thorough: also "
-    "every history of <=4 updates with <=2 flush deadlines, with and without one pause/resume pair, over a "
-    "raw+json+quicklogger collection, continuous and subdivided, <=4096 schedules each; counters "
+    "paused, per recording. A thread can be preempted immediately before AND immediately after each of its "
+    "Event/Thread operations (the plain code between two operations runs with the earlier or with the later one, by "
+    "choice of the tape). Additionally schedules of small histories are enumerated depth-first with sleep-set "
+    "reduction (an operation and a plain-code block of different threads commute): all schedules with any number "
+    "of preemptions before operations and at most b preemptions taken immediately after an operation. Quick: 9 fixed "
+    "histories (b=1, <=1500 schedules each) plus 16 Hypothesis-drawn histories with two flush deadlines (b=1, <=800 "
+    "each). Thorough: the fixed histories with b=1 and b=2, every history of <=4 updates with <=2 flush deadlines "
+    "(with and without one pause/resume pair) with b=0 and every such history of <=3 updates with b=1, over a "
+    "raw+json+quicklogger collection, continuous and subdivided, <=6000 schedules each; counters "
     "dfs-histories-complete / dfs-histories-truncated / dfs-schedules). Non-trivial = a run with >=2 completed "
     "writer cycles in which the writer was preempted between two of its synchronisation operations; distinct = "
     "(formatter set, #cycles, per-cycle preemption pattern, pause present, subdivision present, #subdivisions "
     "class, timeouts seen)."
 )
 ASSUME = [
-    "interleavings are explored at the granularity of Event.is_set/set/clear/wait and Thread.start/join/is_alive; "
-    "an operation and the plain code that follows it up to the next operation execute atomically",
+    "interleavings are explored at the granularity of Event.is_set/set/clear/wait and Thread.start/join/is_alive: each "
+    "operation is atomic, and each stretch of plain code between two operations of a thread is atomic (it can be "
+    "ordered before or after the other thread's blocks, not interleaved with them)",
     "a timed wait that cannot proceed times out only when no other thread can run (its time-out branch is a pure "
     "polling loop in this code), virtual time never sleeps",
     "time is read through data_collection.time only (asserted at start-up: no other data-logger module binds time)",
@@ -199,7 +205,8 @@ def _exc_key(e: BaseException) -> str:
 
 
 def _writer_pattern(log, wtid, ev_disk, ev_fin):
-    """(#completed writer cycles, per-cycle (preempted before clear, preempted before set)) from the effect log."""
+    """(#completed writer cycles, per-cycle (preempted before write_to_disk.clear(), preempted before
+    write_finished.set())) from the effect log; the two operations may come in either order."""
     cycles = []
     cur = None
     last_w = None  # index in log of the writer's previous operation
@@ -208,11 +215,12 @@ def _writer_pattern(log, wtid, ev_disk, ev_fin):
             continue
         between = last_w is not None and any(log[j][0] != wtid for j in range(last_w + 1, i))
         if kind == "wait" and name == ev_disk and res:
-            cur = [False, False]
+            cur = [None, None]
         elif kind == "clear" and name == ev_disk and cur is not None:
             cur[0] = between
         elif kind == "set" and name == ev_fin and cur is not None:
             cur[1] = between
+        if cur is not None and cur[0] is not None and cur[1] is not None:
             cycles.append(tuple(cur))
             cur = None
         last_w = i
@@ -683,6 +691,7 @@ def dfs_history(res: Result, datasets, history, limit, tag="dfs-", max_after=1):
 
     n, complete = enumerate_schedules(one, limit)
     res.count("dfs-schedules", n)
+    res.count(("dfs-histories-complete" if complete else "dfs-histories-truncated") + f"(after-preemptions<={max_after})")
     res.count("dfs-histories-complete" if complete else "dfs-histories-truncated")
     return n, complete
 
@@ -720,13 +729,13 @@ def shard(seed: int, n_examples: int, max_len: int, max_tape: int, dfs_slice, n_
     hyp_run(body, case_strategy(max_len, max_tape), seed, n_examples, res, collect=True)
 
     # exhaustive schedule enumeration: the fixed slice, then Hypothesis-drawn small histories
-    for datasets, history, limit in dfs_slice:
-        dfs_history(res, datasets, history, limit)
+    for datasets, history, limit, max_after in dfs_slice:
+        dfs_history(res, datasets, history, limit, max_after=max_after)
 
     def body_dfs(v):
         datasets, history = v
         res.evaluations -= 1  # hyp_run counts the history; dfs_history counts its schedules
-        dfs_history(res, datasets, history, dfs_limit)
+        dfs_history(res, datasets, history, dfs_limit, max_after=1)
 
     if n_dfs_random:
         hyp_run(body_dfs, small_case_strategy(), seed ^ 0x5EED, n_dfs_random, res, collect=True)
@@ -737,24 +746,29 @@ def run(ctx: RunContext) -> int:
     t0 = _real_time.time()
     n = ctx.scale(300, 8000)
     max_len = 14 if ctx.quick else 24
-    max_tape = 48 if ctx.quick else 96
-    limit = 600 if ctx.quick else 4096
-    work = [(d, h, limit) for d, h in FIXED_DFS]
+    max_tape = 96 if ctx.quick else 192
+    limit = 1500 if ctx.quick else 6000
+    # (data sets, history, cap on #schedules, bound on preemptions taken at after-points)
+    work = [(d, h, limit, 1) for d, h in FIXED_DFS]
     if not ctx.quick:
+        work += [(d, h, limit, 2) for d, h in FIXED_DFS]
         for sub in (0, SUBDIV):
             cfg = [{"fmt": f, "types": "ALL", "subdiv": sub} for f in FORMATTERS]
             for h in small_histories(4):
-                work.append((cfg, h, limit))
-        work.sort(key=lambda w: -len(w[1]))  # long histories first, so the shards end together
+                work.append((cfg, h, limit, 0))
+            for h in small_histories(3):
+                work.append((cfg, h, limit, 1))
+        work.sort(key=lambda w: -(len(w[1]) * (1 + 8 * w[3])))  # expensive trees first, so the shards end together
     slices = [work[i::16] for i in range(16)]
-    n_dfs = ctx.scale(2, 40)
-    res = run_shards(shard, [(derive_seed(ctx.seed, i), n, max_len, max_tape, slices[i], n_dfs, limit)
+    n_dfs = ctx.scale(1, 24)
+    res = run_shards(shard, [(derive_seed(ctx.seed, i), n, max_len, max_tape, slices[i], n_dfs, min(limit, 800 if ctx.quick else limit))
                              for i in range(16)])
     if res.counters.get("dfs-histories-truncated"):
-        res.notes.append(f"some schedule trees were cut at {limit} schedules: the exhaustive sub-domain is the set of "
-                         "histories counted in dfs-histories-complete")
-    res.notes.append("exhaustive sub-domain: all schedules (at synchronisation-operation granularity) of the "
-                     "histories counted in dfs-histories-complete")
+        res.notes.append(f"some schedule trees were cut at their cap ({limit} schedules): the exhaustive sub-domain is the "
+                         "set of histories counted in dfs-histories-complete")
+    res.notes.append("exhaustive sub-domain: all schedules (synchronisation-operation granularity, with the stated bound "
+                     "on preemptions taken immediately after an operation) of the histories counted in "
+                     "dfs-histories-complete")
     return conclude(ctx, res, RULE, ASSUME, t0)
 
 
